@@ -289,7 +289,7 @@ pub fn add_subs(subs: &mut Vec<Sub>, sz: Sz) {
         let nprog = progs.len() as u64;
         let nseq = crate::drivers::EVAL_CHOICES.pow(depth);
         subs.push(
-            Sub::new(&sz.tag("eval-answers"), nprog * nseq * 2, "each of the suspending programs (every Requires* kind, nested calls, loops, entry values) resumed with every answer sequence of the stated depth over a 12-answer alphabet (all ValueTypes incl. NaN, 0/max, empty/self/tail at_location bytecode), address sizes 4 and 8, max_iterations 64", move |ctx, i| {
+            Sub::new(&sz.tag("eval-answers"), nprog * nseq * 2, "each of the suspending programs (every Requires* kind, nested calls, loops, entry values) resumed with every answer sequence of the stated depth over a 12-answer alphabet (all ValueTypes incl. NaN, 0/max, empty/self/tail at_location bytecode and four callee expressions living in buffers of their own: with a forward branch, a conditional branch, a backward loop, a register location followed by more operations), address sizes 4 and 8, max_iterations 64", move |ctx, i| {
                 let mut m = Mix(i);
                 let a8 = m.flag();
                 let choice = m.take(nseq);
